@@ -5,7 +5,7 @@
    that canonical form is what the correspondence run checks (families of
    construction paths per denotation). *)
 From Arrai Require Import Base.Val Spec.SetAlg Eval.Interp Proofs.ValOrder Proofs.SetAlgP Proofs.KeyedP Proofs.CanonP Proofs.WfP.
-From Arrai Require Import Rep.Builder Proofs.BuilderP.
+From Arrai Require Import Rep.Builder Proofs.BuilderP Proofs.BuilderSeqP Proofs.BuilderDictP Proofs.BuilderAllP.
 
 (* a = b holds exactly when both denote the same value *)
 Theorem C02_equality_is_identity_of_denotations :
@@ -81,8 +81,8 @@ Print Assumptions C02_builder_buckets_partition_members.
 
 (* SetBuilder.Finish: the built set denotes exactly the members it was given (none dropped, none added) whenever no two
    bucket keys print the same text and every per-bucket finisher denotes exactly the members of its bucket.
-   PARTIAL: the second hypothesis is proved below for the generic bucket only; for the string / bytes / array / dict /
-   relation finishers it is what the correspondence run compares.  Both hypotheses are needed: see the _refuted theorems. *)
+   (The modular form; both hypotheses are discharged in C02_builder_denotes_members below, and both are needed: see the
+   _refuted theorems.) *)
 Theorem C02_builder_denotes_members_partial :
   forall ms r, build ms = BOk r ->
     NoDup (map (fun x => bucket_str (fst x)) (bucketise ms)) ->
@@ -100,6 +100,33 @@ Theorem C02_generic_bucket_denotes_members :
     forall v, In v (set_elems (abs (finish_generic vs))) <-> In v (map abs vs).
 Proof. exact finish_generic_denotes_members. Qed.
 Print Assumptions C02_generic_bucket_denotes_members.
+
+(* rel.NewSet denotes exactly the members it is given - no member dropped, altered or added, whatever the insertion order,
+   repetitions, offsets, holes, multi-valued keys, number of buckets - for every member list in the well-formed region
+   (`wf_members`: bucket keys that print alike are the same bucket and tuples filed together have the same duplicate-free
+   names; characters are not negative; at most one payload per index; byte indices without gaps - each excluded case is an
+   open finding with a _refuted witness below) on whose members, dict keys / values and relation cells Equal never
+   identifies two different denotations (`equal_sound_on`, decidable: `equal_sound_onb`).
+   Proved through the five per-bucket finishers: asString, asBytes, asArray (Proofs/BuilderSeqP.v), NewDict(true, ..) and
+   relationBuilder (Proofs/BuilderDictP.v), genericSetFinish (Proofs/BuilderP.v). *)
+Theorem C02_builder_denotes_members :
+  forall ms r, build ms = BOk r -> wf_members ms -> equal_sound_on ms -> abs r = mkset (map abs ms).
+Proof. exact build_denotes_members. Qed.
+Print Assumptions C02_builder_denotes_members.
+
+(* hence two member lists with the same denotations are built to representations with the same denotation *)
+Theorem C02_same_members_same_denotation :
+  forall ms ms' r r', build ms = BOk r -> build ms' = BOk r' -> wf_members ms -> wf_members ms' ->
+    equal_sound_on ms -> equal_sound_on ms' -> mkset (map abs ms) = mkset (map abs ms') -> abs r = abs r'.
+Proof.
+  intros ms ms' r r' Hb Hb' Hw Hw' Hs Hs' He.
+  rewrite (build_denotes_members ms r Hb Hw Hs), (build_denotes_members ms' r' Hb' Hw' Hs'). exact He.
+Qed.
+Print Assumptions C02_same_members_same_denotation.
+
+Theorem C02_equal_soundness_is_decidable : forall ms, equal_sound_onb ms = true -> equal_sound_on ms.
+Proof. exact equal_sound_onb_ok. Qed.
+Print Assumptions C02_equal_soundness_is_decidable.
 
 (* outside the hypotheses the statements fail in the faithful model (each witness is replayed on the implementation by the
    region cases of the check): two items superimposed at one index - the last one written wins, so a member is lost and
@@ -152,3 +179,33 @@ Example C02_builder_probe :
              RTupItem 1 REmpty; RTupG [([97], rint 1)]; RTupG [([97], rint 2)]; rint 1] in
   exists u, build ms = BOk (RUnion u) /\ length u = 5%nat /\ abs (RUnion u) = mkset (map abs ms).
 Proof. eexists. split; [vm_compute; reflexivity|]. split; vm_compute; reflexivity. Qed.
+
+(* the hypotheses of C02_builder_denotes_members hold on a member list with five buckets, a hole, an offset, a multi-valued
+   key, a repeated member and a repeated row *)
+Definition probe_members : list rep :=
+  [rint 1; RTupG []; RTupChar 1 97; RTupChar 3 99; RTupEntry (rint 1) (rint 2); RTupEntry (rint 1) (rint 3);
+   RTupItem 1 REmpty; RTupG [([97], rint 1)]; RTupG [([97], rint 2)]; rint 1; RTupG [([97], rint 1)]].
+
+Example C02_builder_theorem_applies :
+  exists r, build probe_members = BOk r /\ wf_members probe_members /\ equal_sound_on probe_members /\
+            abs r = mkset (map abs probe_members).
+Proof.
+  assert (Hs : equal_sound_on probe_members) by (apply equal_sound_onb_ok; vm_compute; reflexivity).
+  assert (Hw : wf_members probe_members).
+  { unfold probe_members. constructor.
+    - intros m m' Hm Hm'. cbn [In] in Hm, Hm'.
+      repeat (destruct Hm as [<-|Hm]; [repeat (destruct Hm' as [<-|Hm']; [vm_compute; intros H; first [reflexivity|discriminate]|]); destruct Hm'|]); destruct Hm.
+    - intros l l' Hl Hl'. cbn [In] in Hl, Hl'.
+      repeat (destruct Hl as [Hl|Hl]; [try discriminate; inversion Hl; subst l; repeat (destruct Hl' as [Hl'|Hl']; [try discriminate; inversion Hl'; subst l'; intros; first [reflexivity|contradiction|discriminate]|]); destruct Hl'|]); destruct Hl.
+    - intros l Hl. cbn [In] in Hl.
+      repeat (destruct Hl as [Hl|Hl]; [try discriminate; inversion Hl; subst l; cbn [map fst]; repeat constructor; intros []|]); destruct Hl.
+    - intros a c Hin. cbn [In] in Hin. repeat (destruct Hin as [Hin|Hin]; [try discriminate; inversion Hin; subst; lia|]); destruct Hin.
+    - intros a c c' H1 H2. cbn [In] in H1, H2.
+      repeat (destruct H1 as [H1|H1]; [try discriminate; inversion H1; subst; repeat (destruct H2 as [H2|H2]; [try discriminate; inversion H2; subst; first [reflexivity|lia]|]); destruct H2|]); destruct H1.
+    - intros a c c' H1. cbn [In] in H1. repeat (destruct H1 as [H1|H1]; [discriminate|]); destruct H1.
+    - intros a x x' H1 H2. cbn [In] in H1, H2.
+      repeat (destruct H1 as [H1|H1]; [try discriminate; inversion H1; subst; repeat (destruct H2 as [H2|H2]; [try discriminate; inversion H2; subst; reflexivity|]); destruct H2|]); destruct H1.
+    - intros a b c d i H1. cbn [In] in H1. repeat (destruct H1 as [H1|H1]; [discriminate|]); destruct H1. }
+  destruct (build probe_members) as [r| |] eqn:Eb; try (vm_compute in Eb; discriminate).
+  exists r. split; [reflexivity|]. split; [exact Hw|]. split; [exact Hs|]. apply (C02_builder_denotes_members _ _ Eb Hw Hs).
+Qed.
